@@ -47,13 +47,16 @@ def detokenise(toks):
 def seeds_for(tier):
     texts = list(FIXED_SEEDS[:2] if tier == "quick" else FIXED_SEEDS)
     n = 0 if tier == "quick" else 37
-    if n:
-        Ps = gen.programs(seed() * 1000 + 14, n, features=["neg", "agg", "arith", "str", "rec", "adt", "range", "recursion", "facts", "cmp"],
-                          n_idb=(1, 2), max_edbs=1, edb_sample=2)
+    if n:       # the n shortest (in tokens) of a pool of generated programs: the number of single mutants is ~110 per token
+        Ps = gen.programs(seed() * 1000 + 14, 150, features=["neg", "agg", "arith", "str", "rec", "adt", "range", "recursion", "facts", "cmp"],
+                          n_idb=(1, 1), max_edbs=1, edb_sample=2)
+        pool = []
         for P in Ps:
             for r in P["rels"]:
                 r["input"] = False          # no fact files: the text is the whole input
-            texts.append(render.program(P))
+            pool.append(render.program(P))
+        pool.sort(key=lambda t: (len(tokenise(t)), t))
+        texts += pool[:n]
     return texts
 
 def run(tier, replay=None):
